@@ -11,6 +11,7 @@ import (
 
 func (e *FuncEnc) abstracted(in ssa.Instruction, why string) {
 	e.Abstracted = append(e.Abstracted, fmt.Sprintf("%s: %s", why, in.String()))
+	e.Imprecise = append(e.Imprecise, why+" is outside the modelled subset")
 }
 
 func (e *FuncEnc) setVal(v ssa.Value, sort, expr string) {
@@ -354,7 +355,7 @@ func (e *FuncEnc) encodeLookup(x *ssa.Lookup) {
 		if _, isSl := t.Elem().Underlying().(*types.Slice); isSl {
 			e.assume(e.curReach, e.sliceWF(val))
 		}
-		e.mapValueFacts(val, has, t)
+		e.mapValueFacts(val, has, x.X.Type())
 		if x.CommaOk {
 			e.tuple[x] = []string{val, has}
 		} else {
@@ -372,7 +373,7 @@ func (e *FuncEnc) encodeLookup(x *ssa.Lookup) {
 
 // mapValueFacts applies assumed invariants about map values (e.g. url.Values
 // entries are non-empty) from the world's configuration.
-func (e *FuncEnc) mapValueFacts(val, has string, t *types.Map) {
+func (e *FuncEnc) mapValueFacts(val, has string, t types.Type) {
 	if e.W != nil && e.W.MapValueFact != nil {
 		if f := e.W.MapValueFact(e, t, val, has); f != "" {
 			e.assume(e.curReach, f)
@@ -801,11 +802,10 @@ func (e *FuncEnc) encodeNext(x *ssa.Next) {
 	v := e.newSym("next_v", e.D.SortOf(mt.Elem()))
 	if stable {
 		_, hk2, _, hs2, ks2, _ := e.mapKeys(mt)
-		lenf := e.D.UF("maplen_"+mangle(ks2), []string{fmt.Sprintf("(Array %s Bool)", ks2)}, "Int")
-		e.D.Axiom("maplen_"+mangle(ks2), fmt.Sprintf("(forall ((a (Array %s Bool))) (! (>= (%s a) 0) :pattern ((%s a))))", ks2, lenf, lenf))
+		lenf := e.D.MapLen(ks2)
 		e.assume(e.curReach, implies(okS, sx(">", sx(lenf, sx("select", e.heapName(e.cur, hk2, hs2), m)), "0")))
 		e.assume(e.curReach, implies(okS, and(not(eq(m, "0")), has, eq(v, val))))
-		e.mapValueFacts(v, okS, mt)
+		e.mapValueFacts(v, okS, rng.X.Type())
 	}
 	e.paramLikeFacts(v, mt.Elem())
 	e.tuple[x] = []string{okS, k, v}
